@@ -254,4 +254,195 @@ example : FieldsFit .c32 { SecBuf.fresh .c32 1 with nameOff := 0x0102, flags := 
 example : (encodeShdr .c32 .msb { SecBuf.fresh .c32 1 with nameOff := 0x0102 }).take 4 = [0, 0, 1, 2] := by decide
 example : (encodeShdr .c32 .lsb { SecBuf.fresh .c32 1 with nameOff := 0x0102 }).take 4 = [2, 1, 0, 0] := by decide
 
+/-! ### 2. ELF header setters -/
+
+/-- the header fields with a setter -/
+inductive HField | type | machine | version | entry | phoff | shoff | flags | phnum | shnum | shstrndx
+  deriving DecidableEq, Repr
+
+namespace HField
+/-- gABI field name -/
+def name : HField → String
+  | .type => "e_type"
+  | .machine => "e_machine"
+  | .version => "e_version"
+  | .entry => "e_entry"
+  | .phoff => "e_phoff"
+  | .shoff => "e_shoff"
+  | .flags => "e_flags"
+  | .phnum => "e_phnum"
+  | .shnum => "e_shnum"
+  | .shstrndx => "e_shstrndx"
+/-- the model's setter (`elf_header_impl::set_*`: truncate to the field type, convert, store) -/
+def set : HField → Cls → Enc → Bytes → Nat → Bytes
+  | .type => Hdr.set_type
+  | .machine => Hdr.set_machine
+  | .version => Hdr.set_version
+  | .entry => Hdr.set_entry
+  | .phoff => Hdr.set_phoff
+  | .shoff => Hdr.set_shoff
+  | .flags => Hdr.set_flags
+  | .phnum => Hdr.set_phnum
+  | .shnum => Hdr.set_shnum
+  | .shstrndx => Hdr.set_shstrndx
+end HField
+
+/-- a field name of the table -/
+def ValidName (l : Spec.Layout) (name : String) : Prop := (l.find? (fun e => e.1 == name)).isSome = true
+instance (l : Spec.Layout) (name : String) : Decidable (ValidName l name) := by unfold ValidName; infer_instance
+
+theorem field_of_valid {l : Spec.Layout} {name : String} (h : ValidName l name) :
+    ∃ e ∈ l, e.1 = name ∧ Spec.field l name = e.2 := by
+  unfold ValidName at h
+  unfold Spec.field
+  cases hf : l.find? (fun e => e.1 == name) with
+  | none => rw [hf] at h; cases h
+  | some e =>
+    refine ⟨e, List.mem_of_find?_eq_some hf, ?_, rfl⟩
+    have := List.find?_some hf
+    simpa using this
+
+/-- the gABI ELF header table: distinct names occupy disjoint byte ranges inside the header -/
+theorem ehdr_table_ok (c : Cls) :
+    (∀ e1 ∈ Spec.ehdrL c, ∀ e2 ∈ Spec.ehdrL c, e1.1 ≠ e2.1 →
+      e1.2.1 + e1.2.2 ≤ e2.2.1 ∨ e2.2.1 + e2.2.2 ≤ e1.2.1) ∧
+    (∀ e ∈ Spec.ehdrL c, e.2.1 + e.2.2 ≤ Spec.ehdrSize c) := by
+  cases c <;> decide
+
+theorem hfield_valid (f : HField) (c : Cls) : ValidName (Spec.ehdrL c) f.name := by
+  cases f <;> cases c <;> decide
+
+/-- every setter stores the specification encoding of (the truncation of) its argument at the
+    field's gABI position -/
+theorem hdr_set_eq_wr (f : HField) (c : Cls) (enc : Enc) (h : Bytes) (v : Nat) :
+    f.set c enc h v = wr h (Spec.field (Spec.ehdrL c) f.name).1
+      (encodeInt enc (Spec.field (Spec.ehdrL c) f.name).2 v) := by
+  cases f <;> cases c <;>
+    (show wr h _ (wrField enc _ v) = _; rw [wrField_eq _ _ _ (by decide)]; rfl)
+
+theorem hdr_set_length (f : HField) (c : Cls) (enc : Enc) (h : Bytes) (v : Nat)
+    (hl : ehdrSize c ≤ h.length) : (f.set c enc h v).length = h.length := by
+  rw [hdr_set_eq_wr]
+  obtain ⟨e, he, _, hf⟩ := field_of_valid (hfield_valid f c)
+  have := (ehdr_table_ok c).2 e he
+  rw [(sizes_eq c).1] at hl
+  apply wr_length
+  rw [encodeInt_length, hf]; omega
+
+/-- **hdr_set_get** (specification level): after a setter, the specification decoder reads the
+    truncated argument from that field -/
+theorem hdr_set_get_spec (f : HField) (c : Cls) (enc : Enc) (h : Bytes) (v : Nat)
+    (hl : ehdrSize c ≤ h.length) :
+    Spec.get (Spec.ehdrL c) enc (f.set c enc h v) 0 f.name =
+      v % 2 ^ (8 * (Spec.field (Spec.ehdrL c) f.name).2) := by
+  apply get_of_isSpecField
+  unfold IsSpecField
+  rw [hdr_set_eq_wr]
+  obtain ⟨e, he, _, hf⟩ := field_of_valid (hfield_valid f c)
+  have := (ehdr_table_ok c).2 e he
+  rw [(sizes_eq c).1] at hl
+  have h1 := slice_wr_same h (encodeInt enc (Spec.field (Spec.ehdrL c) f.name).2 v)
+    (Spec.field (Spec.ehdrL c) f.name).1 (by rw [encodeInt_length, hf]; omega)
+  rw [encodeInt_length] at h1
+  exact h1
+
+/-- **hdr_set_frame** (specification level): every other field of the header reads as before -/
+theorem hdr_set_frame_spec (f : HField) (c : Cls) (enc : Enc) (h : Bytes) (v : Nat)
+    (hl : ehdrSize c ≤ h.length) (name : String) (hv : ValidName (Spec.ehdrL c) name)
+    (hne : name ≠ f.name) :
+    Spec.get (Spec.ehdrL c) enc (f.set c enc h v) 0 name = Spec.get (Spec.ehdrL c) enc h 0 name := by
+  obtain ⟨e, he, hen, hf⟩ := field_of_valid (hfield_valid f c)
+  obtain ⟨e', he', hen', hf'⟩ := field_of_valid hv
+  have hb := (ehdr_table_ok c).2 e he
+  have hd := (ehdr_table_ok c).1 e' he' e he (by rw [hen, hen']; exact hne)
+  rw [(sizes_eq c).1] at hl
+  have p : Spec.field (Spec.ehdrL c) name = ((Spec.field (Spec.ehdrL c) name).1, (Spec.field (Spec.ehdrL c) name).2) := rfl
+  rw [C02.get_of_field p, C02.get_of_field p, hdr_set_eq_wr, Nat.zero_add]
+  rw [slice_wr_other _ _ _ _ _ (by rw [encodeInt_length, hf]; omega)
+    (by rw [encodeInt_length, hf, hf']; omega)]
+
+private theorem bv_eq_of {n} {x y : BitVec n} {a b : Nat} (hx : x.toNat = a) (hy : y.toNat = b) (h : a = b) :
+    x = y := BitVec.eq_of_toNat_eq (by rw [hx, hy, h])
+
+/-- **hdr_set_frame** (getter level): a setter changes no *other* getter's answer -/
+theorem hdr_set_frame (f : HField) (c : Cls) (enc : Enc) (h : Bytes) (v : Nat) (hl : ehdrSize c ≤ h.length) :
+    (f.name ≠ "e_type" → Hdr.e_type c enc (f.set c enc h v) = Hdr.e_type c enc h) ∧
+    (f.name ≠ "e_machine" → Hdr.e_machine c enc (f.set c enc h v) = Hdr.e_machine c enc h) ∧
+    (f.name ≠ "e_version" → Hdr.e_version c enc (f.set c enc h v) = Hdr.e_version c enc h) ∧
+    (f.name ≠ "e_entry" → Hdr.e_entry c enc (f.set c enc h v) = Hdr.e_entry c enc h) ∧
+    (f.name ≠ "e_phoff" → Hdr.e_phoff c enc (f.set c enc h v) = Hdr.e_phoff c enc h) ∧
+    (f.name ≠ "e_shoff" → Hdr.e_shoff c enc (f.set c enc h v) = Hdr.e_shoff c enc h) ∧
+    (f.name ≠ "e_flags" → Hdr.e_flags c enc (f.set c enc h v) = Hdr.e_flags c enc h) ∧
+    (f.name ≠ "e_ehsize" → Hdr.e_ehsize c enc (f.set c enc h v) = Hdr.e_ehsize c enc h) ∧
+    (f.name ≠ "e_phentsize" → Hdr.e_phentsize c enc (f.set c enc h v) = Hdr.e_phentsize c enc h) ∧
+    (f.name ≠ "e_phnum" → Hdr.e_phnum c enc (f.set c enc h v) = Hdr.e_phnum c enc h) ∧
+    (f.name ≠ "e_shentsize" → Hdr.e_shentsize c enc (f.set c enc h v) = Hdr.e_shentsize c enc h) ∧
+    (f.name ≠ "e_shnum" → Hdr.e_shnum c enc (f.set c enc h v) = Hdr.e_shnum c enc h) ∧
+    (f.name ≠ "e_shstrndx" → Hdr.e_shstrndx c enc (f.set c enc h v) = Hdr.e_shstrndx c enc h) := by
+  have hl' : ehdrSize c ≤ (f.set c enc h v).length := by rw [hdr_set_length f c enc h v hl]; exact hl
+  obtain ⟨a0, a1, a2, a3, a4, a5, a6, a7, a8, a9, a10, a11, a12⟩ := C02.ehdr_fields_eq_spec c enc h hl
+  obtain ⟨b0, b1, b2, b3, b4, b5, b6, b7, b8, b9, b10, b11, b12⟩ := C02.ehdr_fields_eq_spec c enc (f.set c enc h v) hl'
+  have fr : ∀ name, ValidName (Spec.ehdrL c) name → f.name ≠ name →
+      Spec.get (Spec.ehdrL c) enc (f.set c enc h v) 0 name = Spec.get (Spec.ehdrL c) enc h 0 name :=
+    fun name hv hne => hdr_set_frame_spec f c enc h v hl name hv (fun e => hne e.symm)
+  exact ⟨fun hn => bv_eq_of b0 a0 (fr _ (by cases c <;> decide) hn),
+    fun hn => bv_eq_of b1 a1 (fr _ (by cases c <;> decide) hn),
+    fun hn => bv_eq_of b2 a2 (fr _ (by cases c <;> decide) hn),
+    fun hn => bv_eq_of b3 a3 (fr _ (by cases c <;> decide) hn),
+    fun hn => bv_eq_of b4 a4 (fr _ (by cases c <;> decide) hn),
+    fun hn => bv_eq_of b5 a5 (fr _ (by cases c <;> decide) hn),
+    fun hn => bv_eq_of b6 a6 (fr _ (by cases c <;> decide) hn),
+    fun hn => bv_eq_of b7 a7 (fr _ (by cases c <;> decide) hn),
+    fun hn => bv_eq_of b8 a8 (fr _ (by cases c <;> decide) hn),
+    fun hn => bv_eq_of b9 a9 (fr _ (by cases c <;> decide) hn),
+    fun hn => bv_eq_of b10 a10 (fr _ (by cases c <;> decide) hn),
+    fun hn => bv_eq_of b11 a11 (fr _ (by cases c <;> decide) hn),
+    fun hn => bv_eq_of b12 a12 (fr _ (by cases c <;> decide) hn)⟩
+
+/-- **hdr_set_get** (getter level): each getter returns the argument of its setter truncated to
+    the field's width -/
+theorem hdr_set_get (c : Cls) (enc : Enc) (h : Bytes) (v : Nat) (hl : ehdrSize c ≤ h.length) :
+    (Hdr.e_type c enc (Hdr.set_type c enc h v)).toNat = v % 65536 ∧
+    (Hdr.e_machine c enc (Hdr.set_machine c enc h v)).toNat = v % 65536 ∧
+    (Hdr.e_version c enc (Hdr.set_version c enc h v)).toNat = v % 4294967296 ∧
+    (Hdr.e_entry c enc (Hdr.set_entry c enc h v)).toNat =
+      v % (match c with | .c32 => 4294967296 | .c64 => 18446744073709551616) ∧
+    (Hdr.e_phoff c enc (Hdr.set_phoff c enc h v)).toNat =
+      v % (match c with | .c32 => 4294967296 | .c64 => 18446744073709551616) ∧
+    (Hdr.e_shoff c enc (Hdr.set_shoff c enc h v)).toNat =
+      v % (match c with | .c32 => 4294967296 | .c64 => 18446744073709551616) ∧
+    (Hdr.e_flags c enc (Hdr.set_flags c enc h v)).toNat = v % 4294967296 ∧
+    (Hdr.e_phnum c enc (Hdr.set_phnum c enc h v)).toNat = v % 65536 ∧
+    (Hdr.e_shnum c enc (Hdr.set_shnum c enc h v)).toNat = v % 65536 ∧
+    (Hdr.e_shstrndx c enc (Hdr.set_shstrndx c enc h v)).toNat = v % 65536 := by
+  have g : ∀ f : HField, _ := fun f => hdr_set_get_spec f c enc h v hl
+  have l : ∀ f : HField, ehdrSize c ≤ (f.set c enc h v).length :=
+    fun f => by rw [hdr_set_length f c enc h v hl]; exact hl
+  refine ⟨?_, ?_, ?_, ?_, ?_, ?_, ?_, ?_, ?_, ?_⟩
+  · have t := (C02.ehdr_fields_eq_spec c enc (HField.type.set c enc h v) (l .type)).1; have e := g .type; cases c <;> exact t.trans e
+  · have t := (C02.ehdr_fields_eq_spec c enc (HField.machine.set c enc h v) (l .machine)).2.1; have e := g .machine; cases c <;> exact t.trans e
+  · have t := (C02.ehdr_fields_eq_spec c enc (HField.version.set c enc h v) (l .version)).2.2.1; have e := g .version; cases c <;> exact t.trans e
+  · have t := (C02.ehdr_fields_eq_spec c enc (HField.entry.set c enc h v) (l .entry)).2.2.2.1; have e := g .entry; cases c <;> exact t.trans e
+  · have t := (C02.ehdr_fields_eq_spec c enc (HField.phoff.set c enc h v) (l .phoff)).2.2.2.2.1; have e := g .phoff; cases c <;> exact t.trans e
+  · have t := (C02.ehdr_fields_eq_spec c enc (HField.shoff.set c enc h v) (l .shoff)).2.2.2.2.2.1; have e := g .shoff; cases c <;> exact t.trans e
+  · have t := (C02.ehdr_fields_eq_spec c enc (HField.flags.set c enc h v) (l .flags)).2.2.2.2.2.2.1; have e := g .flags; cases c <;> exact t.trans e
+  · have t := (C02.ehdr_fields_eq_spec c enc (HField.phnum.set c enc h v) (l .phnum)).2.2.2.2.2.2.2.2.2.1; have e := g .phnum; cases c <;> exact t.trans e
+  · have t := (C02.ehdr_fields_eq_spec c enc (HField.shnum.set c enc h v) (l .shnum)).2.2.2.2.2.2.2.2.2.2.2.1; have e := g .shnum; cases c <;> exact t.trans e
+  · have t := (C02.ehdr_fields_eq_spec c enc (HField.shstrndx.set c enc h v) (l .shstrndx)).2.2.2.2.2.2.2.2.2.2.2.2; have e := g .shstrndx; cases c <;> exact t.trans e
+
+/-- `set_ident`-style single byte stores (`e_ident[i]`): the byte reads back, others unchanged -/
+theorem hdr_set_ident_get (h : Bytes) (i v : Nat) (hi : i < h.length) :
+    Hdr.ident (Hdr.set_ident h i v) i = BitVec.ofNat 8 (v % 256) ∧
+    ∀ j, j ≠ i → Hdr.ident (Hdr.set_ident h i v) j = Hdr.ident h j := by
+  unfold Hdr.ident Hdr.set_ident
+  constructor
+  · rw [List.getD_eq_getElem?_getD, wr_getElem? _ _ _ _ (by simp only [List.length_cons, List.length_nil]; omega)]
+    simp
+  · intro j hj
+    rw [List.getD_eq_getElem?_getD, List.getD_eq_getElem?_getD, wr_getElem? _ _ _ _ (by simp only [List.length_cons, List.length_nil]; omega)]
+    simp only [List.length_cons, List.length_nil]
+    ite_omega
+
+example : Hdr.e_machine .c64 .msb (Hdr.set_machine .c64 .msb (Hdr.create .c64 .msb 2) 0x1003E) = 0x3E#16 := by decide
+
 end ElfioVerif.C03
